@@ -1,8 +1,8 @@
 package xport
 
 import (
-	"fmt"
 	"errors"
+	"fmt"
 	"io"
 	"net"
 	"sync"
